@@ -201,10 +201,10 @@ def opAes (op : String) (a : Args) : Option String := do
           let c0 : CrcSt UInt32 := ⟨crcInit, e.crc32, ae2⟩
           match e.method with
           | .stored =>
-            let step := fun (r : CrcSt UInt32 × Valid ListSrc) n =>
-              match crcRead crcUpd crcFin aesStep r.1 r.2 n with
-              | (o, c, i) => (o, (c, i))
-            let (_, out, er, pan, r) := callerLoop step (fuelFor body.length bufs) bufs bufs (c0, v) [] []
+            -- `ZipFile::read` = `entryRead` with the pass-through decoder, `finish_crypto` is a no-op
+            let step := fun (r : EntrySt ListSrc Unit UInt32) n =>
+              entryRead P listSrc storedDec false crcUpd crcFin r n
+            let (_, out, er, pan, r) := callerLoop step (fuelFor body.length bufs) bufs bufs ⟨(), v, c0⟩ [] []
             if pan then some "open=ok file=ok read=panic" else
             let ag := againStr step r
             match er with
@@ -220,7 +220,7 @@ def opAes (op : String) (a : Args) : Option String := do
             let zh ← a.nat? "zh"
             let zout ← a.hex? "zout"
             let fills := if zres == "more" then zl / 32768 + 2 else zc / 32768 + 1
-            let (got, er, pan, _) := pullFills aesStep fills v []
+            let (got, er, pan, v1) := pullFills aesStep fills v []
             if pan then some "open=ok file=ok read=panic" else
             match er with
             | some er => some s!"open=ok file=ok read={Out.className er}"
@@ -233,9 +233,14 @@ def opAes (op : String) (a : Args) : Option String := do
                 some "open=ok file=ok read=unknown-inflate"
               else if zres == "corrupt" then some "open=ok file=ok read=err io:invalidinput"
               else if zres == "end" then
+                -- the decoder reports end-of-stream: the CRC layer's check comes first (`?`), then
+                -- `finish_crypto` drains the AES reader so that its code check happens
                 if crcFin (crcUpd crcInit zout) ≠ e.crc32 ∧ !ae2 then
                   some s!"open=ok file=ok read=err io:other"
-                else some s!"open=ok file=ok read=ok len={zout.length} h={(fnv64 zout).toNat}"
+                else match (finishCrypto P listSrc true v1).1 with
+                  | .err er => some s!"open=ok file=ok read={Out.className er}"
+                  | .panic _ => some "open=ok file=ok read=panic"
+                  | .ok _ => some s!"open=ok file=ok read=ok len={zout.length} h={(fnv64 zout).toNat}"
               else some "open=ok file=ok read=unknown-inflate"
           | _ => some "open=ok file=ok read=unmodelled"
   | _ => none
